@@ -137,3 +137,33 @@ Example ex_outdir_through_link :
   kwalk max_symlinks ex_fs2 true [] (split_slash [x2f; x6c]) = KOk [ex_o] (Some NDir) /\
   look (fst (extract_cmd true ex_fs2 [] [x2f; x6c] [] ex_benign)) [ex_o; ex_a] = Some (NFile [x50]).
 Proof. vm_compute. repeat split; reflexivity. Qed.
+
+(* ---- permission bits ---- *)
+Lemma same_kind_default_mode n n' : same_kind n n' -> default_mode n = default_mode n'.
+Proof. destruct n, n'; cbn; intro H; try contradiction; reflexivity. Qed.
+
+Theorem modes_outside_unchanged fs cwd outdir pathflag roots root fs' res :
+  (forall k, look fs (Nat.iter k (@removelast name) cwd) = Some NDir) ->
+  eval_symlinks_str fs cwd outdir = Some root ->
+  extract_cmd true fs cwd outdir pathflag roots = (fs', res) ->
+  forall (m : modes) p, ~ under (phys_of cwd root) p -> mode_of m fs' p = mode_of m fs p.
+Proof.
+  intros Hc He H m p Hp. unfold mode_of.
+  rewrite (extract_cmd_contained _ _ _ _ _ _ _ _ Hc He H p Hp). reflexivity.
+Qed.
+
+Theorem modes_of_existing_objects_unchanged fs cwd outdir pathflag roots root fs' res :
+  (forall k, look fs (Nat.iter k (@removelast name) cwd) = Some NDir) ->
+  eval_symlinks_str fs cwd outdir = Some root ->
+  extract_cmd true fs cwd outdir pathflag roots = (fs', res) ->
+  forall (m : modes) p, look fs p <> None -> mode_of m fs' p = mode_of m fs p.
+Proof.
+  intros Hc He H m p Hp. unfold mode_of. destruct (look fs p) as [n|] eqn:L; [|contradiction].
+  destruct (extract_cmd_preserves _ _ _ _ _ _ _ _ Hc He H p n L) as [n' [L' K]].
+  rewrite L'. rewrite (same_kind_default_mode _ _ K). reflexivity.
+Qed.
+
+Example ex_modes :
+  mode_of [([ex_t], 384%N)] (fst (extract_cmd true ex_fs [] ex_outdir [] ex_benign)) [ex_t] = Some 384%N /\
+  mode_of [([ex_t], 384%N)] (fst (extract_cmd true ex_fs [] ex_outdir [] ex_benign)) [ex_o; ex_a] = Some 420%N.
+Proof. vm_compute. split; reflexivity. Qed.
